@@ -297,6 +297,16 @@ def run(ctx: Ctx, tier: str) -> Result:
             if norm(c_.func.value) == it_txt or (it_ex & set(ctx.expand.expand(c_.func.value, shutdown))):
                 res.fail(Finding("C14.D", shutdown.qname, c_, shutdown.loc(c_), "`%s` changes the list the loop `for %s in %s` is walking: the element after the current one is "
                                  "skipped (every second plugin is never shut down)" % (norm(c_)[:60], norm(lp_.target), it_txt[:40])))
+    # draining is not optional: flush is also what closes the task handler (work offered afterwards is refused), so it runs on
+    # every shutdown of a started agent - not only when something happens to be pending at that moment
+    for c_ in t.calls_in(shutdown):
+        if isinstance(c_.func, ast.Attribute) and c_.func.attr == "flush" and any(f_.qname.endswith("TaskHandler.flush") for f_ in t.resolve_call(c_, shutdown).repo):
+            cs_ = [(norm(x), pol) for x, pol in paths.conditions(p, c_, shutdown) if "started" not in norm(x)]
+            if cs_:
+                res.fail(Finding("C14.D", shutdown.qname, c_, shutdown.loc(c_), "the delivery is only drained (and the task handler only closed) when `%s`: a shutdown that finds nothing pending leaves "
+                                 "the handler open, and snapshots handed over afterwards are accepted and sent" % cs_[0][0][:60]))
+            else:
+                res.ok("C14.D", {"flush on every shutdown": shutdown.loc(c_)})
     flag_clear = [n for n in steps if isinstance(n, ast.Assign)]
     if flag_clear and all(isinstance(n.value, ast.Constant) and n.value.value is False for n in flag_clear):
         res.ok("C14.D", {"started cleared": shutdown.loc(flag_clear[-1])})
@@ -347,7 +357,8 @@ def run(ctx: Ctx, tier: str) -> Result:
     elif joins:
         res.fail(Finding("C14.E", stop.qname, joins[0], stop.loc(joins[0]), "join() before the stop event is set: shutdown hangs for a full interval or forever"))
     else:
-        res.ok("C14.E", {"event.set() present, no join": True})
+        res.fail(Finding("C14.E", stop.qname, "<thread.join()>", stop.loc(), "the timer is told to stop but not waited for: a poll that is in flight goes on, and its answer is applied (a configuration "
+                         "installed, the next poll prepared) after shutdown has returned"))
     tgt = p.func("deep.utils.RepeatedTimer._target")
     waits = [n for n in t.nodes_in(tgt, ast.While)]
     def _is_wait(e):
@@ -392,5 +403,5 @@ def run(ctx: Ctx, tier: str) -> Result:
     borrow(ctx, res, tier, "c09", ("C09.A", "C09.D"), "C14.AFTER", "after shutdown nothing is delivered: work offered to the closed handler is refused, never run in place")
     borrow(ctx, res, tier, "c12", ("C12.LOOP",), "C14.START", "start completes whatever the first poll does: a failure there that escapes start() leaves the hooks installed with "
            "`started` false, and shutdown then puts nothing back")
-    borrow(ctx, res, tier, "c09", ("C09.E",), "C14.DRAIN", "what shutdown drains is this agent's own pending work (per-handler bookkeeping)")
+    borrow(ctx, res, tier, "c09", ("C09.E", "C09.C"), "C14.DRAIN", "what shutdown drains is this agent's own pending work (per-handler bookkeeping)")
     return res
